@@ -18,6 +18,12 @@ def codes(s):
     return [ord(ch) for ch in s]
 
 
+import types as _types
+
+# user types printed through pretty_call: type -> fn(v) -> (printed name, args, [(kw, value)...])
+CALL_VALUES = {}
+
+
 def value_term(v, sort=False, subs=None):
     """Exact-type value term. subs: dict class -> (qualname, base kind) of known subclasses."""
     t = type(v)
@@ -35,6 +41,15 @@ def value_term(v, sort=False, subs=None):
         else:
             inner = base(v)
         return ['sub', qual, value_term(inner, sort, subs)]
+    if t in CALL_VALUES:
+        name, args, kws = CALL_VALUES[t](v)
+        return ['call', name, [value_term(a, sort, subs) for a in args], [[k, value_term(x, sort, subs)] for k, x in kws]]
+    if isinstance(v, tuple) and hasattr(t, '_fields') and t is not tuple:
+        mod = t.__module__
+        name = t.__qualname__ if mod in ('builtins', '__main__') else '%s.%s' % (mod, t.__qualname__)
+        return ['call', name, [], [[f, value_term(x, sort, subs)] for f, x in zip(t._fields, v)]]
+    if t is _types.SimpleNamespace:
+        return ['call', 'types.SimpleNamespace', [], [[k, value_term(v.__dict__[k], sort, subs)] for k in sorted(v.__dict__)]]
     if t is bool:
         return ['bool', 1 if v else 0]
     if t is int:
